@@ -316,6 +316,27 @@ func Run(r *core.Run) {
 				}
 				return &core.Fail{Key: "process-operation/" + name, What: fmt.Sprintf("processing the create request gives %q (%v), expected %s", got, err, L), Detail: M{"did": L}}
 			}
+			// the same request in other spellings of the same JSON value (member order, an escaped character, indentation): whatever is
+			// returned for it is a long-form DID, so it must be the canonical one and must resolve
+			var v M
+			_ = json.Unmarshal(raw, &v)
+			sd, _ := json.Marshal(v["suffixData"])
+			dl, _ := json.Marshal(v["delta"])
+			indented, _ := json.MarshalIndent(v, "", "  ")
+			for vi, spelled := range [][]byte{[]byte(`{"type":"create","suffixData":` + string(sd) + `,"delta":` + string(dl) + `}`),
+				[]byte(strings.Replace(string(raw), `"type":"create"`, `"type":"\u0063reate"`, 1)), indented, append([]byte(" "), append(append([]byte{}, raw...), '\n')...)} {
+				r2, err := handler.ProcessOperation(spelled)
+				if err != nil {
+					continue // refusing a non-canonical spelling is not a matter of this property
+				}
+				det := M{"did": L, "request_as_sent": string(spelled), "spelling": vi}
+				if r2.Document.ID() != L {
+					return &core.Fail{Key: "process-operation-spelling", What: fmt.Sprintf("the create request in another spelling of the same JSON value gives the DID %s instead of %s", trunc(r2.Document.ID()), trunc(L)), Detail: det}
+				}
+				if _, err := handler.ResolveDocument(r2.Document.ID()); err != nil {
+					return &core.Fail{Key: "process-operation-spelling", What: "the DID returned for a create request does not resolve: " + err.Error(), Detail: det}
+				}
+			}
 			return nil
 		})
 	}
